@@ -19,7 +19,9 @@ Kinds == { "snv", "indel", "multi", "symbolic" }
 Rec(pos, kind, calls) ==
     [chrom |-> 1, pos |-> pos, fixed |-> 0, nalt |-> IF kind = "multi" THEN 2 ELSE 1, symbolic |-> kind = "symbolic",
      snv |-> kind = "snv", dup |-> FALSE, keys |-> <<>>, calls |-> calls]
-Supported(r) == r.nalt = 1 /\ ~r.symbolic
+(* a symbolic ALT (<DEL>, <INS>, ...) is read like any other single ALT allele: the repository's own tests pin genetic
+   phasing of such records (test_genetic_phasing_symbolic_alt) *)
+Supported(r) == r.nalt = 1
 (* positions the reader hands to the phasing stages: first supported biallelic record of each position *)
 Eligible(recs) == { recs[k].pos : k \in { x \in DOMAIN recs : Supported(recs[x]) /\ (OnlySnv => recs[x].snv)
                                                                /\ ~\E y \in 1..(x - 1) : recs[y].pos = recs[x].pos } }
@@ -86,5 +88,5 @@ InvOnlySupported ==
     Done => \A k \in DOMAIN out : \A s \in targets :
         LET c == out[k].calls[s] IN
         ((TagPS /\ c.phased) \/ (~TagPS /\ c.hp # -1)) =>
-            /\ Het(c) /\ out[k].nalt = 1 /\ ~out[k].symbolic /\ ~out[k].dup /\ (OnlySnv => out[k].snv)
+            /\ Het(c) /\ out[k].nalt = 1 /\ ~out[k].dup /\ (OnlySnv => out[k].snv)
 =============================================================================
